@@ -11,7 +11,10 @@
 (*     let[w] = letter of the _compute_key request whose result was installed,    *)
 (*     size[w] = bytes installed, id[w] = identity of the installed bytes (equal  *)
 (*     bytes = equal id), rfc_ok = installed bytes are the RFC derivation from    *)
-(*     the session id of the FIRST exchange; need[dir][w] = bytes the negotiated  *)
+(*     the session id of the FIRST exchange; wire = "ok" / "bad" / "none": the first *)
+(*     packet sent under the keys of an outbound activation opens with an engine  *)
+(*     built independently from the RFC-derived values of that exchange;          *)
+(*      need[dir][w] = bytes the negotiated  *)
 (*     cipher / MAC require (0 = not used, AES-GCM has no MAC key).               *)
 EXTENDS KeyDerivation, Json, IOUtils, TLCExt
 Batch == JsonDeserialize(IOEnv.TRACE_FILE)
@@ -51,6 +54,9 @@ KexBad ==
                             /\ Act(x[1], "out").id[x[3]] # Act(Peer(x[1]), "in").id[x[3]], "P_match")
     \cup S(\E x \in Used, y \in Used : C2S(x[1], x[2]) # C2S(y[1], y[2])
                             /\ Act(x[1], x[2]).id[x[3]] = Act(y[1], y[2]).id[y[3]], "P_shared")
+    \* the first packet written after the key switch opens (decrypts, MAC / tag verifies) with an engine built
+    \* independently from the RFC-derived key, IV and MAC key of THIS exchange ("none" = no packet was written)
+    \cup S(\E i \in 1..Len(R.acts) : R.acts[i].wire = "bad", "P_key_in_use")
     \cup S(\E r \in Roles, d \in Dirs : ~Has(r, d), "C_incomplete")
 
 TInit == tid \in 1..Len(Batch) /\ l = 1 /\ bad = {} /\ Init /\ mut = "none"
